@@ -76,6 +76,10 @@ def judgeDefRes (prop : String) (cid : String) (o : Op) (res : Except ErrCode Gr
     let msgLen := kvInt obs "msglen"
     out := out.v cid o.n "C15" "K" (msgLen > 0) s!"msglen={msgLen}"
     out := out.v cid o.n "C12" "K" (msgLen ≤ 200) s!"error message fits its buffer: msglen={msgLen}"
+    -- the harness fills the stack with a pattern before the call: pattern bytes in the message
+    -- (beyond those of the caller's own text) are uninitialised memory
+    if (kv obs "poison").isSome then
+      out := out.v cid o.n "C12" "K" (kvInt obs "poison" == 0) s!"error message built from initialised memory only: poison={kvInt obs "poison"}"
   out := out.s cid s!"def rc={rc}"
   match res with
   | .ok g =>
